@@ -36,6 +36,7 @@ class StringBuilder {
       node_ = nullptr;  // next time we need a new string
     } else {
       node->references++;
+      ARDUINOJSON_VERIF_EVENT(13, resources_, node, node->references);
     }
     return node;
   }
